@@ -449,7 +449,9 @@ def oracle_free(c, stats):
         if err:
             fails.append("free.%s.%s" % (alg, err))
             continue
-        fails += finite_outputs("free.%s" % alg, res)
+        # (ill-posed networks: non-finite numbers printed by envelope are part of the recorded finding on ill-posed free
+        # networks and get a tag of their own; in a well-posed network they are a violation)
+        fails += finite_outputs(("free.%s" if resolving or alg != "envelope" else "free.illposed.%s") % alg, res)
         X[alg] = x
     if fails:
         return fails
@@ -494,8 +496,17 @@ def oracle_free(c, stats):
         fails.append("free.%s.algorithms_differ: %s" % ("wellposed" if resolving else "illposed", {a: o for a, o in outcome.items()}))
     elif outcome and list(kinds)[0][0] == "adjusted":
         stats.label("free.adjusted_same_points")
+        pf = []
         for alg in ALGS[1:]:
-            fails += tolerant_compare("free.pair.envelope.%s" % alg, X["envelope"], X[alg], stats, net)
+            pf += tolerant_compare("free.pair.envelope.%s" % alg, X["envelope"], X[alg], stats, net)
+        if pf and all(".cov:" in f for f in pf):
+            # only covariances differ, and only between envelope and the others: the recorded accuracy finding of the
+            # envelope solver on free networks (C02 net.envelope_free) - if the other three agree among themselves
+            rest = tolerant_compare("free.pair.gso.svd", X["gso"], X["svd"], stats, net) + \
+                tolerant_compare("free.pair.gso.cholesky", X["gso"], X["cholesky"], stats, net)
+            if not rest:
+                pf = ["free.envelope_free.cov: covariances of envelope differ from gso / svd / cholesky, which agree: %s" % pf[0]]
+        fails += pf
     return fails
 
 
